@@ -233,18 +233,21 @@ theorem C04_logon_gap (s s' : Sess) (m : InMsg) (n t : Int) (hk : kindOf m = "A"
   rw [logonFixMsgIn_high s s' m n t hk h, ← ht]; rfl
 
 /-- and the Logon handler does report the gap for every Logon the application accepts that passes the gates, asks for
-    no reset and carries a number above the expected one (the expected number is still the one before the Logon) -/
+    no reset and carries a number above the expected one (the expected number is still the one before the Logon).
+    `hnx` (new with EnableNextExpectedMsgSeqNum): the Logon is not refused because its tag 789 is ahead of our next outbound
+    number — without the option, or without a readable 789, that is always so (`nxRefuses_off`, `nxRefuses_absent`). -/
 theorem C04_logon_gap_detected (s : Sess) (m : InMsg) (n : Int) (hst : s.st = .logon) (hk : kindOf m = "A")
     (hfixt : (s.cfg.bs == 5 && !(m.f.has 1137)) = false)
     (hv : validate s.cfg m = none) (hcb : callbackVerdict m = none)
     (hr1 : (if s.cfg.initiator then false else s.cfg.resetOnLogon) = false) (hr2 : logonResetFlag m = false)
     (hb : checkBeginString s m = none) (hc : checkCompID s m = none) (ht : checkSendingTime s m = none)
-    (hn : getInt m 34 = .val n) (hgt : n > s.store.target) :
+    (hn : getInt m 34 = .val n) (hgt : n > s.store.target)
+    (hnx : nxRefuses s m = false) :
     ∃ s', Kept s s' ∧
       fixMsgInCore s m =
         (sendInReplyTo s' (mkOut "2" [(7, toString s.store.target), (16, toString (chunkEnd s.cfg s.store.target (n - 1)))]),
          .resend [] (chunkCur s.cfg s.store.target (n - 1)) (n - 1)) := by
-  obtain ⟨s', hl, hkept⟩ := handleLogon_gap s m n hfixt hv hcb hr1 hr2 hb hc (Or.inr ht) hn hgt
+  obtain ⟨s', hl, hkept⟩ := handleLogon_gap s m n hfixt hv hcb hr1 hr2 hb hc (Or.inr ht) hn hgt hnx
   refine ⟨s', hkept, ?_⟩
   have : fixMsgInCore s m = logonFixMsgIn s m := by simp [fixMsgInCore, hst]
   rw [this, logonFixMsgIn_high s s' m n _ hk hl, hkept.target, hkept.cfg]; rfl
